@@ -163,24 +163,29 @@ Definition minimize (mi : min_input) : min_output :=
 Definition rule_key_full (mi : min_input) (rule_sym : list Z) (r : Z) : list Z :=
   let ngr := zlength (map (fun _ => 0) (mi_rule_keys mi)) in
   if (0 <=? r) && (r <? ngr) then zn (mi_rule_len mi) r :: zn rule_sym r :: nth (Z.to_nat r) (mi_rule_keys mi) []
-  else [-1; r].     (* runtime-lookahead rules are only equivalent to themselves *)
+  else [r].          (* runtime-lookahead rules are only equivalent to themselves *)
 
 Definition check_min (mi : min_input) (rule_sym : list Z) (mo : min_output) (terms ninputs : Z) : bool :=
   let t := mi_enc mi in let t' := mo_enc mo in
   let n := mi_num_states mi in let n' := mo_num_states mo in
   let remap := mo_remap mo in
   let nsyms := zlength (d_goto t) - 1 in
+  let nrules := zlength (mi_rule_len mi) in
   (* every old state has a new state *)
   forallb (fun s => (0 <=? zn remap s) && (zn remap s <? n')) (zseq n)
   (* entry states keep their numbers (the entry functions use the input index) *)
   && forallb (fun i => zn remap i =? i) (zseq ninputs)
   && zlist_eqb (mo_final mo) (map (zn remap) (mi_final mi))
+  (* rules reduce to nonterminals *)
+  && forallb (fun r => (terms <=? zn rule_sym r) && (zn rule_sym r <? nsyms)) (zseq nrules)
   (* actions commute with the remapping, up to equivalent rules; no LALR(k) rows *)
   && forallb (fun s => forallb (fun a =>
+        negb (lalr_deep t s a) && negb (lalr_deep t' (zn remap s) a) &&
         match default_act t s a [], default_act t' (zn remap s) a [] with
         | Shift q, Shift q' => (0 <=? q) && (q <? n) && (q' =? zn remap q)
-        | Reduce r, Reduce r' => zlist_eqb (rule_key_full mi rule_sym r) (rule_key_full mi rule_sym r')
-        | Err, Err => negb (lalr_deep t s a)
+        | Reduce r, Reduce r' => (0 <=? r) && (r <? nrules) && (0 <=? r') && (r' <? nrules)
+                                 && zlist_eqb (rule_key_full mi rule_sym r) (rule_key_full mi rule_sym r')
+        | Err, Err => true
         | _, _ => false
         end) (zseq terms)) (zseq n)
   (* gotos commute with the remapping *)
